@@ -745,7 +745,7 @@ func (s *Stream) processSingleFieldFallback(fieldSpec string, dataMap map[string
 func (s *Stream) executeFunction(funcExpr string, data map[string]any) (any, error) {
 	// Check if it's a custom function
 	funcName := extractFunctionName(funcExpr)
-	if funcName != "" {
+	if funcName != "" && isWholeFunctionCall(funcExpr) {
 		// Use function system directly
 		fn, exists := functions.Get(funcName)
 		if exists {
@@ -772,6 +772,38 @@ func (s *Stream) executeFunction(funcExpr string, data map[string]any) (any, err
 	}
 
 	return result, nil
+}
+
+// isWholeFunctionCall reports whether expr is one call f(...) and nothing else: the ")" matching the
+// first "(" ends the expression. `round(x/3, 2) + mod(a, b)` starts with a call but is an arithmetic
+// expression; parseFunctionArgs (first "(" to last ")") must not be applied to it.
+func isWholeFunctionCall(expr string) bool {
+	expr = strings.TrimSpace(expr)
+	open := strings.Index(expr, "(")
+	if open < 0 {
+		return false
+	}
+	depth := 0
+	var quote byte
+	for i := open; i < len(expr); i++ {
+		c := expr[i]
+		switch {
+		case quote != 0:
+			if c == quote {
+				quote = 0
+			}
+		case c == '\'' || c == '"' || c == '`':
+			quote = c
+		case c == '(':
+			depth++
+		case c == ')':
+			depth--
+			if depth == 0 {
+				return i == len(expr)-1
+			}
+		}
+	}
+	return false
 }
 
 // extractFunctionName extracts function name from expression
